@@ -581,7 +581,18 @@ func (x *pmmx) ruleAllocMarks() {
 		case setStore == nil:
 			bad = "a frame is returned without its bit having been set (freeBitmap[i] |= mask) on every path"
 		case setStore.mask != maskV:
-			bad = "the bit that is set is not the bit that was tested"
+			// not the same value: the same bit, when both masks have their single
+			// bit at the same position in the scan's induction form
+			same := false
+			if lf, ok := g.loopFormAt(z, testIns.Block()); ok {
+				b1, ok1 := bitPosition(lf, z, maskV)
+				b2, ok2 := bitPosition(lf, z, setStore.mask)
+				same = ok1 && ok2 && b1.equal(b2)
+				lf.Done()
+			}
+			if !same {
+				bad = "the bit that is set is not the bit that was tested"
+			}
 		}
 		if bad == "" {
 			// The scan in induction form: in iteration T of the innermost loop
